@@ -37,7 +37,8 @@ def build(cfg_id):
         return frozen
     c = CONFIGS[cfg_id]
     profile = c.get("profile", "dev")
-    tdir = os.path.join(HARNESS, "target", "cfg-" + cfg_id)
+    ws = alt_harness()
+    tdir = os.path.join(ws, "target", "cfg-" + cfg_id)
     ensure_dir(tdir)
     cmd = ["cargo", "build", "--offline", "-q", "-p", "drv", "--target-dir", tdir]
     if profile == "release":
@@ -51,7 +52,7 @@ def build(cfg_id):
     lock = open(os.path.join(tdir, ".verif-lock"), "w")
     fcntl.flock(lock, fcntl.LOCK_EX)
     try:
-        p = run(cmd, cwd=HARNESS, env=env, timeout=1800, check=False)
+        p = run(cmd, cwd=ws, env=env, timeout=1800, check=False)
     finally:
         fcntl.flock(lock, fcntl.LOCK_UN)
         lock.close()
@@ -91,9 +92,10 @@ def build_tfz():
     """The stand-alone Threefish zeroize probe (threefish built with --no-default-features --features zeroize)."""
     if "tfz" in _built:
         return _built["tfz"]
-    tdir = ensure_dir(os.path.join(HARNESS, "target", "cfg-tfz"))
+    ws = alt_harness()
+    tdir = ensure_dir(os.path.join(ws, "target", "cfg-tfz"))
     env = {"CARGO_ENCODED_RUSTFLAGS": "-Awarnings", "CARGO_NET_OFFLINE": "true"}
-    p = run(["cargo", "build", "--offline", "-q", "-p", "tfz", "--target-dir", tdir], cwd=HARNESS, env=env, timeout=1800, check=False)
+    p = run(["cargo", "build", "--offline", "-q", "-p", "tfz", "--target-dir", tdir], cwd=ws, env=env, timeout=1800, check=False)
     if p.returncode != 0:
         raise ToolError(f"build of tfz failed:\n{(p.stdout or '')[-3000:]}")
     _built["tfz"] = os.path.join(tdir, "debug", "tfz")
